@@ -16,7 +16,8 @@
    user-level secret is not checked; "ReplyServerKey" answers are sealed under the server key;
    "AcceptWrong" a wrong server-level secret is accepted (anti-vacuity); "ShapeAccepted" a credential
    field that holds no key is accepted; "SessionCipherCached" a datagram is opened with the cipher
-   remembered for its session, whichever user it names.                                          *)
+   remembered for its session, whichever user it names; "SharedKeyTable" the keys derived for one
+   listener's users are kept in a table every listener of the process consults.                  *)
 EXTENDS Integers, FiniteSets, TLC
 
 CONSTANTS Dev
@@ -31,12 +32,16 @@ Registered == {"A", "B"}
    claim: whose identity the message NAMES (multi-user Shadowsocks: the identity header): "own" = the user whose key sealed
    the message, "other" = the other registered user (the peer knows that user's identity hash - any holder of the server key
    can read it off the wire - but not that user's key).
+   at: a server process runs one listener per configuration entry, each with its own secret / user table.  "here" = the
+   credential is registered at the listener it is presented to; "elsewhere" = it is registered at ANOTHER listener of the
+   same process and at this one nobody knows it; "elsewhere-used" = and that other listener has already served it (what a
+   process-wide table of derived keys would remember).  A listener honours its own entry's credentials only.
    prior: the same peer has just sent a valid datagram of the same client session under its own identity (datagram
    configurations; what a per-session cache would remember).                                                          *)
 Messages ==
-  {[cfg |-> c, sk |-> s, uk |-> u, form |-> f, claim |-> cl, prior |-> pr] :
+  {[cfg |-> c, sk |-> s, uk |-> u, form |-> f, claim |-> cl, prior |-> pr, at |-> li] :
       c \in Configs, s \in {"right", "wrong", "onebit", "none", "shape"}, u \in {"A", "B", "X", "S", "-"}, f \in {"whole", "truncated"},
-      cl \in {"own", "other"}, pr \in BOOLEAN}
+      cl \in {"own", "other"}, pr \in BOOLEAN, li \in {"here", "elsewhere", "elsewhere-used"}}
 
 Sensible(m) == /\ (HasUsers(m.cfg) <=> m.uk # "-")
                /\ (~HasServerKey(m.cfg) => m.sk \in {"right", "none"})      \* vmess: "right" = n/a, "none" = garbage
@@ -44,11 +49,13 @@ Sensible(m) == /\ (HasUsers(m.cfg) <=> m.uk # "-")
                /\ (m.uk = "S" => (m.cfg \in {"ss-multi", "ss-udp-multi"} /\ m.sk = "right"))
                /\ (m.claim = "other" => (m.cfg \in {"ss-multi", "ss-udp-multi"} /\ m.uk \in Registered /\ m.sk = "right" /\ m.form = "whole"))
                /\ (m.prior => (m.cfg = "ss-udp-multi" /\ m.uk \in Registered /\ m.sk = "right" /\ m.form = "whole"))
+               /\ (m.at # "here" => (/\ m.cfg \in {"trojan", "vmess", "ss-multi"} /\ m.sk = "right" /\ m.form = "whole"
+                                    /\ m.claim = "own" /\ ~m.prior /\ (HasUsers(m.cfg) => m.uk \in Registered)))
 
 Other(u) == IF u = "A" THEN "B" ELSE "A"
 Named(m) == IF m.claim = "other" THEN Other(m.uk) ELSE m.uk          \* the user the message names
 
-Credential(m) == /\ m.sk = "right"
+Credential(m) == /\ m.sk = "right" /\ m.at = "here"
                  /\ (HasUsers(m.cfg) => m.uk \in Registered)
                  /\ m.claim = "own"
 
@@ -64,7 +71,8 @@ Decide ==
          \* the named user's key must open the message: it does iff the message names the user whose key sealed it -
          \* unless the cipher is taken from a cache that remembers the session but not whose key it was made from
          okClaim  == msg.claim = "own" \/ ("SessionCipherCached" \in Dev /\ msg.prior)
-         ok       == okServer /\ okUser /\ okClaim /\ msg.form = "whole"
+         okHere   == msg.at = "here" \/ ("SharedKeyTable" \in Dev /\ msg.at = "elsewhere-used")
+         ok       == okServer /\ okUser /\ okClaim /\ okHere /\ msg.form = "whole"
          user     == IF ~HasUsers(msg.cfg) THEN "-" ELSE IF "FirstUser" \in Dev THEN "A" ELSE Named(msg)
      IN /\ emitted' = IF ok THEN "yes" ELSE "no"
         /\ authUser' = IF ok THEN user ELSE "-"
